@@ -136,10 +136,11 @@ func (p *Packet) unpackWithoutCompression(r io.Reader) error {
 	}
 	p.ID = int32(PacketID)
 
-	lengthOfData := int(Length) - int(n)
-	if lengthOfData < 0 || Length > MaxDataLength { // the maximum counts the packet id too
-		return fmt.Errorf("uncompressed packet error: length is %d", lengthOfData)
+	// compared before subtracting: int has 32 bits on some platforms and a length of -2^31 would wrap
+	if int64(Length) < n || Length > MaxDataLength { // the maximum counts the packet id too
+		return fmt.Errorf("uncompressed packet error: length is %d", int64(Length)-n)
 	}
+	lengthOfData := int(Length) - int(n)
 	if cap(p.Data) < lengthOfData {
 		p.Data = make([]byte, lengthOfData)
 	} else {
